@@ -145,6 +145,32 @@ def work(shard, res, tier, seed):
                     res.count("default_runs_after_a_keep_maps_run_on_the_same_cache_dir")
                 finally:
                     shutil.rmtree(tmp, ignore_errors=True)
+        # (a) rows of a keep-the-maps run fed back into a default run (dictionaries that already carry the tool's
+        #     columns, with maps in them); (b) a stage fails for one batch of a mapped input: whatever rows come back
+        #     must be map-free
+        for k, c in enumerate(cases[:3]):
+            bk = pipeline.make_balancer(n_jobs=1)
+            bk.remove_aam = False
+            rows1, _, _ = pipeline.run(bk, c["inputs"])
+            if rows1:
+                b3 = pipeline.make_balancer(n_jobs=1)
+                rows3, _, _ = pipeline.run(b3, [dict(r) for r in rows1])
+                outs.append({"rows": rows3})
+                res.count("keep_maps_rows_fed_back_into_default_run")
+            b4 = pipeline.make_balancer(n_jobs=1)
+            orig_find = b4.mcs_search.find
+            calls = {"n": 0}
+
+            def faulty_find(reactions, _o=orig_find, _c=calls):
+                _c["n"] += 1
+                if _c["n"] % 2 == 0:
+                    raise RuntimeError("injected failure in the MCS search stage")
+                return _o(reactions)
+
+            b4.mcs_search.find = faulty_find
+            rows4, _, _ = pipeline.run(b4, c["inputs"], batch_size=2)
+            outs.append({"rows": rows4})
+            res.count("runs_with_a_failing_stage")
         for out in outs:
             for row in out["rows"] or []:
                 for col in ("reaction", "input_reaction"):
@@ -165,4 +191,5 @@ def work(shard, res, tier, seed):
 
 def conclude_args(res, tier, seed):
     return {"need": {"evaluated:corpus": 500, "evaluated:brackets": 1000, "evaluated:respell": 500,
-                     "pipeline_cells": 50, "default_runs_after_a_keep_maps_run_on_the_same_cache_dir": 2, "evaluated:explicit_aromatic_bonds": 5, "evaluated:long_mixture": 10}, "min_cases": 500}
+                     "pipeline_cells": 50, "default_runs_after_a_keep_maps_run_on_the_same_cache_dir": 2, "keep_maps_rows_fed_back_into_default_run": 2,
+                     "runs_with_a_failing_stage": 2, "evaluated:explicit_aromatic_bonds": 5, "evaluated:long_mixture": 10}, "min_cases": 500}
